@@ -17,12 +17,13 @@
 (*   SetRestricted  -> same-frequency sub-grid of a window [ws, we)        *)
 (*   SetCoarse      -> coarser sub-grid: groups of fine steps              *)
 (*   Assign         -> interval data cast onto the grid                    *)
+(*   PricesToGrid   -> timestamped price points cast onto the grid         *)
 (* Every reachable state is emitted with the expected result; the harness  *)
 (* performs the same call on the real Timegrid and compares exactly.       *)
 (***************************************************************************)
 EXTENDS Integers, Sequences, FiniteSets, TLC, Json
 
-CONSTANTS Zones, Freqs, Starts, Ends, Mtus, WinStarts, WinEnds, CoarseFreqs, IntervalLists
+CONSTANTS Zones, Freqs, Starts, Ends, Mtus, WinStarts, WinEnds, CoarseFreqs, IntervalLists, PriceLists
 
 Off(z, a)    == IF z.d = 0 \/ a < z.sw THEN 0 ELSE z.d
 Local(z, a)  == a + Off(z, a)
@@ -79,6 +80,18 @@ Assign(z, g, iv) ==
    vals    |-> [i \in 1..g.T |-> LET C == Containing(z, iv, g.pts[i]) IN
                                  IF C = {} THEN Undefined ELSE iv[CHOOSE k \in C : \A k2 \in C : k <= k2].v]]
 
+\* timestamped prices (a list of [t, v], local times, in any order, distinct): the price at a grid point is the linear interpolation
+\* in ABSOLUTE time between the neighbouring price points, constant before the first and after the last one; <<num, den>>
+PriceAt(z, P, p) ==
+  LET T == { Abs(z, P[k].t) : k \in 1..Len(P) }
+      V(a) == P[CHOOSE k \in 1..Len(P) : Abs(z, P[k].t) = a].v
+      lo == { a \in T : a <= p }   hi == { a \in T : a >= p }
+  IN IF lo = {} THEN <<V(CHOOSE a \in T : \A b \in T : a <= b), 1>>
+     ELSE IF hi = {} THEN <<V(CHOOSE a \in T : \A b \in T : a >= b), 1>>
+     ELSE LET a0 == CHOOSE a \in lo : \A b \in lo : a >= b
+              a1 == CHOOSE a \in hi : \A b \in hi : a <= b
+          IN IF a0 = a1 THEN <<V(a0), 1>> ELSE <<V(a0) * (a1 - a0) + (V(a1) - V(a0)) * (p - a0), a1 - a0>>
+
 Cases == { c \in [z : Zones, f : Freqs, sl : Starts, el : Ends, mtu : Mtus] :
              /\ c.sl < c.el /\ Usable(c.z, c.sl) /\ Usable(c.z, c.el) /\ Abs(c.z, c.sl) < Abs(c.z, c.el) }
 
@@ -99,8 +112,13 @@ AssignIv == \E iv \in IntervalLists :
      /\ (\A k \in 1..Len(iv) : Usable(c.z, iv[k].s) /\ (iv[k].e = -1 \/ Usable(c.z, iv[k].e))) = TRUE
      /\ op' = [kind |-> "assign", iv |-> iv]
      /\ out' = Assign(c.z, G, iv)
+PricesToGrid == \E P \in PriceLists :
+     /\ (\A k \in 1..Len(P) : Usable(c.z, P[k].t)) = TRUE
+     /\ (\A k1, k2 \in 1..Len(P) : k1 # k2 => Abs(c.z, P[k1].t) # Abs(c.z, P[k2].t)) = TRUE
+     /\ op' = [kind |-> "prices", P |-> P]
+     /\ out' = [vals |-> [i \in 1..G.T |-> PriceAt(c.z, P, G.pts[i])]]
 \* operations are independent of each other (the object keeps only the last sub-grid): all are explored from the new grid
-Next == op.kind = "new" /\ (SetRestricted \/ SetCoarse \/ AssignIv) /\ UNCHANGED c
+Next == op.kind = "new" /\ (SetRestricted \/ SetCoarse \/ AssignIv \/ PricesToGrid) /\ UNCHANGED c
 Spec == Init /\ [][Next]_vars
 
 (***************************************************************************)
@@ -126,10 +144,18 @@ AssignDef     == op.kind = "assign" =>
                       /\ (Cardinality(C) > 1) => out.overlap
                       /\ (Cardinality(C) = 1) => out.vals[i] = op.iv[CHOOSE k \in C : TRUE].v
 
+\* a grid point that carries a price point gets exactly its value; every value lies between the smallest and the largest price
+PricesDef     == op.kind = "prices" =>
+                   /\ \A i \in 1..G.T : \A k \in 1..Len(op.P) : Abs(c.z, op.P[k].t) = G.pts[i] => out.vals[i] = <<op.P[k].v, 1>>
+                   /\ \A i \in 1..G.T : \A k \in 1..Len(op.P) :
+                        ((\A k2 \in 1..Len(op.P) : op.P[k].v <= op.P[k2].v) => out.vals[i][1] >= op.P[k].v * out.vals[i][2])
+                        /\ ((\A k2 \in 1..Len(op.P) : op.P[k].v >= op.P[k2].v) => out.vals[i][1] <= op.P[k].v * out.vals[i][2])
+
 EmitRec == [c |-> c, op |-> op,
             out |-> IF op.kind = "new" THEN [T |-> G.T, pts |-> G.pts, dt |-> G.dt, Dt |-> G.Dt]
                     ELSE IF op.kind = "restrict" THEN [I |-> out.I]
                     ELSE IF op.kind = "coarse" THEN [groups |-> out.groups, len |-> [k \in 1..Len(out.groups) |-> GroupLen(G, out.groups[k])]]
+                    ELSE IF op.kind = "prices" THEN [vals |-> out.vals]
                     ELSE [overlap |-> out.overlap, vals |-> out.vals]]
 Emit == PrintT(<<"CASE", ToJson(EmitRec)>>)
 =============================================================================
